@@ -1242,7 +1242,28 @@ func oracle(c core.Case, out []string) []core.Finding {
 			}
 			for _, s := range added {
 				ocount("newly-trusted-header-checked-for-chain")
-				if !reachable(p, prev, s, byHash, e.blks, now) {
+				// the chain can only run over headers trusted before and light blocks some provider
+				// returned during this call
+				universe := e.blks
+				if okLog {
+					universe = map[int]*blkDesc{}
+					for _, r := range replies {
+						if r.op == i && r.blk != nil {
+							if b := e.blks[r.blk.id]; b != nil {
+								universe[b.id] = b
+							}
+						}
+					}
+				}
+				if !reachable(p, prev, s, byHash, universe, now) {
+					// name the class when the only thing missing is trust-level power on a skipping step
+					p0 := p
+					p0.num = 0
+					if reachable(p0, prev, s, byHash, universe, now) {
+						fs = append(fs, core.Finding{Fingerprint: "light.VerifyNonAdjacent.accepts-skipping-step-below-trust-level",
+							Desc: fmt.Sprintf("op %d (%s): header %d:%d became trusted, but every chain to it over the light blocks received in this call contains a non-adjacent step signed by no more than the configured trust level %d/%d of the previously trusted validator set (trusted before: %v)", i, op, s.h, s.hash, p.num, p.den, prev)})
+						continue
+					}
 					dir := "forward"
 					if len(prev) > 0 && s.h < prev[0].h {
 						dir = "backwards"
